@@ -32,7 +32,7 @@
     reported, that every result is a genuine parse result, and evaluated instances. *)
 From Coq Require Import String.
 From FA Require Import model.Base model.Json model.Parse model.SchemaSpec model.Inline model.Canon model.Repo
-     proofs.JsonProofs proofs.ParseProofs proofs.RepoProofs proofs.UnknownProofs.
+     proofs.JsonProofs proofs.ParseProofs proofs.RepoProofs proofs.UnknownProofs proofs.InjectProofs.
 Open Scope string_scope.
 
 (** the loader's parse with _write_hint=True is parse_schema *)
@@ -103,6 +103,28 @@ Example C19_first_unknown_instance :
                        JObj [("name", JStr "b"); ("type", JArr [JStr "null"; JStr "B"])];
                        JObj [("name", JStr "c"); ("type", JStr "C")]])]) [] = PErrUnknown "B" [("A", JObj [("type", JStr "record")])].
 Proof. vm_compute. reflexivity. Qed.
+
+(** (a) _inject_schema replaces exactly the reference C19_first_unknown names.  [filled sub q f j ns st junk y]
+    (proofs/InjectProofs.v) follows the same path as [first_unknown] and says that y is j with that
+    one node replaced by sub and nothing else touched.  The implementation's traversal also rewrites
+    the references BEFORE that node to their full names, so the statement is up to the specification's
+    canonical JSON ([pcf_json], which reads a reference as its full name anyway). *)
+Theorem C19_inject_at_unknown : forall wh kv tbl q junk ikv,
+  jhas "__fastavro_parsed" kv = false ->
+  parse_schema_g wh (fuel_for (JObj kv)) (JObj kv) tbl = PErrUnknown q junk -> q <> "<dict>" ->
+  jget "name" ikv = Some (JStr q) ->
+  exists y x', filled (JObj ikv) q (S (jdepth (JObj kv))) (JObj kv) "" (mkst [] tbl) junk y /\
+               inject (JObj kv) (JObj ikv) = POk (x', true) /\ pcf_json x' = pcf_json y.
+Proof. exact inject_at_unknown. Qed.
+Print Assumptions C19_inject_at_unknown.
+
+(* a part that was parsed against dictionaries without the name holds no reference to it: the traversal
+   passes through it without injecting, changing nothing the canonical JSON sees *)
+Theorem C19_inject_passes_parsed_parts : forall sub q f j ns wh st d p st',
+  parse_rec f j ns wh st d = POk (p, st') -> jhas q (st_tbl st') = false ->
+  exists j', inject_rec f sub (JStr q) j ns false = POk (j', false) /\ pcf_json_in ns j' = pcf_json_in ns j.
+Proof. exact inject_nohit. Qed.
+Print Assumptions C19_inject_passes_parsed_parts.
 
 Theorem C19_missing_top : forall rp name, jget name rp = None -> load rp name = None.
 Proof. exact load_missing_top. Qed.
